@@ -682,8 +682,11 @@ def m_lstrip(I, recv, args, kw):
         return recv.lstrip(chars if isinstance(recv, str) or chars is None else chars.encode("latin-1"))
     cls, ncls = _class_of(chars)
     c = I.ctx
-    pre, res = c.fresh_str("lsp"), c.fresh_str("ls")
     s = _s(recv)
+    tag = "ws" if chars is None else "".join(f"{ord(ch):x}" for ch in chars)
+    # functions of the subject string: the same string always strips to the same result (congruence)
+    pre = z3.Function(f"str.lstrip_removed[{tag}]", z3.StringSort(), z3.StringSort())(s)
+    res = z3.Function(f"str.lstrip[{tag}]", z3.StringSort(), z3.StringSort())(s)
     c.assume(s == z3.Concat(pre, res))
     c.assume(z3.InRe(pre, z3.Star(cls)))
     c.assume(z3.Or(res == z3.StringVal(""), z3.InRe(res, z3.Concat(ncls, z3.Star(re_allchar())))))
@@ -697,8 +700,10 @@ def m_rstrip(I, recv, args, kw):
         return recv.rstrip(chars if isinstance(recv, str) or chars is None else chars.encode("latin-1"))
     cls, ncls = _class_of(chars)
     c = I.ctx
-    post, res = c.fresh_str("rsp"), c.fresh_str("rs")
     s = _s(recv)
+    tag = "ws" if chars is None else "".join(f"{ord(ch):x}" for ch in chars)
+    post = z3.Function(f"str.rstrip_removed[{tag}]", z3.StringSort(), z3.StringSort())(s)
+    res = z3.Function(f"str.rstrip[{tag}]", z3.StringSort(), z3.StringSort())(s)
     c.assume(s == z3.Concat(res, post))
     c.assume(z3.InRe(post, z3.Star(cls)))
     c.assume(z3.Or(res == z3.StringVal(""), z3.InRe(res, z3.Concat(z3.Star(re_allchar()), ncls))))
@@ -712,8 +717,10 @@ def m_strip(I, recv, args, kw):
         return recv.strip(chars if isinstance(recv, str) or chars is None else chars.encode("latin-1"))
     cls, ncls = _class_of(chars)
     c = I.ctx
-    pre, res, post = c.fresh_str("stp"), c.fresh_str("st"), c.fresh_str("sts")
     s = _s(recv)
+    tag = "ws" if chars is None else "".join(f"{ord(ch):x}" for ch in chars)
+    F = lambda nm: z3.Function(f"str.{nm}[{tag}]", z3.StringSort(), z3.StringSort())(s)
+    pre, res, post = F("strip_removed_left"), F("strip"), F("strip_removed_right")
     c.assume(s == z3.Concat(pre, res, post))
     c.assume(z3.InRe(pre, z3.Star(cls)))
     c.assume(z3.InRe(post, z3.Star(cls)))
